@@ -234,7 +234,7 @@ def run(ctx):
                 san = None
                 for o, w in zip(ops, whys):
                     if w:
-                        san = san or ft.sanitised(o, bb)
+                        san = san or ft.sanitised(o, bb, zero_test=(opk == "Sub" and o is ops[0] and mirg.op_int(ops[1]) == 1))
                 if san:
                     ctx.ok(R_arith, {"fn": path, "op": opk, "line": t["ln"], "sanitised_by": san})
                     continue
